@@ -124,8 +124,35 @@ def run(prop, tier):
             if ref_parse(s) is None and r[1] != "refused":
                 ctx.violation("ovni_version_check_str accepts the malformed string %r (%s)" % (s, r[1]),
                               {"engine": "E4 version_server", "query": "V", "string": s}, {"kind": "runtime-malformed", "string": s})
+        # the verdict belongs to each request, not to the process: every pair of requests one after the other in one process
+        # (a program and a second runtime in it may both check); the k-th call returns iff all up to it are compatible
+        singles = []
+        for dm, dn in itertools.product((-1, 0, 1), (-1, 0, 1)):
+            w = (lv[0] + dm, lv[1] + dn, 0)
+            if min(w) >= 0:
+                singles.append(("%d.%d.%d" % w, compatible(w, lv)))
+        singles += [("1.x.0", False), ("", False), ("%d.%d.0" % (lv[0] + 2**32, lv[1]), False)]
+        seqs = [[a, b] for a in singles for b in singles]
+        if tier != "quick":
+            good = [x for x in singles if x[1]]
+            seqs += [[a, b, c] for a in good for b in good for c in singles]
+        for sq in seqs:
+            r = ask("W " + "|".join(x[0] for x in sq))
+            nb += 1
+            nret = 0
+            for x in sq:
+                if not x[1]:
+                    break
+                nret += 1
+            want = ("ok" if nret == len(sq) else "refused", nret)
+            if nret < len(sq):
+                ctx.add(refusing_side=1)
+            if (r[1], int(r[2])) != want:
+                ctx.violation("ovni_version_check_str called with %r one after the other in one process (library %s): %s after %s calls returned, expected %s after %d" % (
+                    [x[0] for x in sq], lib, r[1], r[2], want[0], want[1]),
+                    {"engine": "E4 version_server", "query": "W", "strings": [x[0] for x in sq], "library": lib}, {"kind": "runtime-check-sequence"})
         ctx.add(evaluations=nb, transitions=nb)
-        ctx.part("runtime-check", library=lib, queries=nb)
+        ctx.part("runtime-check", library=lib, queries=nb, call_sequences=len(seqs))
         p.stdin.close()
         p.wait()
         # (c) emulator: required model versions in the +-1 cube around the emulator's version
@@ -171,6 +198,20 @@ def run(prop, tier):
                 # requirement behind a link is still seen
                 jobs.append(("only", model, 1, True, ("link",)))
                 jobs.append(("mixed", model, (ok_v, bad_v), False, ("link",)))
+        # several processes and looms: the odd requirement (incompatible, malformed, or the only one that names the model) sits
+        # in each of the streams in turn
+        spec3 = [{"name": "A", "cpus": [(0, 0), (1, 1)], "procs": [{"pid": 100, "threads": [101]}, {"pid": 200, "threads": [201]}]},
+                 {"name": "B", "cpus": [(0, 0)], "procs": [{"pid": 300, "threads": [301, 302]}]}]
+        rels3 = ["loom.A/proc.100/thread.101", "loom.A/proc.200/thread.201", "loom.B/proc.300/thread.301", "loom.B/proc.300/thread.302"]
+        for model, d in cat.items():
+            have = tuple(int(x) for x in d["version"].split("."))
+            bad_v = "%d.%d.%d" % (have[0], have[1] + 1, 0)
+            for pos in range(4):
+                jobs.append(("mixed3", model, (pos, bad_v), False, None))
+                jobs.append(("mixed3", model, (pos, "1.x"), False, None))
+                jobs.append(("mixed3", model, (pos, bad_v), False, ("-a",)))
+                if model != "ovni":
+                    jobs.append(("only3", model, pos, True, None))
         # all subsets of required models x one probe per model (+ forced -a)
         names = sorted(PROBE)
         subsets = list(itertools.chain.from_iterable(itertools.combinations(names, k) for k in range(len(names) + 1)))
@@ -198,6 +239,27 @@ def run(prop, tier):
                     meta = json.load(open(pth))
                     meta["ovni"]["require"][model] = v
                     json.dump(meta, open(pth, "w"))
+            elif kind in ("mixed3", "only3"):
+                X3 = [Ev(0, "OHx", i32(0, 101) + i64(0)), Ev(1, "OHx", i32(1, 201) + i64(0)), Ev(2, "OHx", i32(0, 301) + i64(0)), Ev(3, "OHx", i32(-1, 302) + i64(0))]
+                E3 = [Ev(k, "OHe") for k in range(4)]
+                so = {k: rels3[k] for k in range(4)}
+                if kind == "mixed3":
+                    system = emusrv.System(spec3, require={"ovni": cat["ovni"]["version"], model: cat[model]["version"]})
+                    emusrv.materialise(system, td, X3 + E3, so)
+                    pth = os.path.join(td, rels3[arg[0]], "stream.json")
+                    meta = json.load(open(pth))
+                    meta["ovni"]["require"][model] = arg[1]
+                    json.dump(meta, open(pth, "w"))
+                else:
+                    system = emusrv.System(spec3, require={"ovni": cat["ovni"]["version"], model: cat[model]["version"]})
+                    a, b = PROBE[model]
+                    emusrv.materialise(system, td, X3 + [Ev(arg, a), Ev(arg, b)] + E3, so)
+                    for k in range(4):
+                        if k != arg:
+                            pth = os.path.join(td, rels3[k], "stream.json")
+                            meta = json.load(open(pth))
+                            del meta["ovni"]["require"][model]
+                            json.dump(meta, open(pth, "w"))
             elif kind == "only":
                 system = emusrv.System(spec, require={"ovni": cat["ovni"]["version"], model: cat[model]["version"]})
                 a, b = PROBE[model]
@@ -280,7 +342,7 @@ def run(prop, tier):
         ctx.cov["rule"] = ("version_is_compatible on all pairs of triples over {0,1,2}^3; version_parse on every string of length <= 6/7 over {0,1,.,-,a} "
                            "against a regular-expression reference (leading zeros not judged); ovni_version_check_str on the +-1 cube around the "
                            "library version; real ovniemu on traces requiring every version in the +-1 cube of each of the 8 models, mixed "
-                           "requirements across streams in both orders, a model required by one stream only (also behind a symbolic link), malformed strings, the same with -a, components beyond the int range, and subsets of required models x one probe event per model (+ -a)")
+                           "requirements across streams in both orders, a model required by one stream only (also behind a symbolic link), the odd requirement in each stream of a trace with two looms and three processes, malformed strings and versions that are not strings, the same with -a, components beyond the int range, and subsets of required models x one probe event per model (+ -a)")
         # non-trivial = cases on the refusing side of the relation (incompatible pair, malformed string, model not required)
         ctx.cov["distinct_nontrivial"] = ctx.cov.get("refusing_side", 0)
         return ctx.finish()
